@@ -9,6 +9,7 @@ import Gama.Model.ActiveCov
 import Gama.Model.BandChol
 import Gama.Model.CovParse
 import Gama.Model.Homogenization
+import Gama.Gen.YSign
 open Gama Gama.Proto Gama.Cov
 
 def splitBar (ts : List String) : List (List String) :=
@@ -159,6 +160,29 @@ def opHomRun (args : List String) : String :=
     | _, _, _ => "bad-op"
   | _ => "bad-op"
 
+/-- `ysign d b es… | flags 0/1 … | values …` : one cluster through `change_y_signs_for_inconsistent_system_`
+    (condition regenerated from network.cpp, `Gen/YSign.lean`); prints the covariance buffer and the values -/
+def opYSign (args : List String) : String :=
+  match splitBar args with
+  | [d :: b :: es, flags, vals] =>
+    match mkCov (K := K) d b es, flags.mapM String.toNat?, parseAll (K := K) vals with
+    | some m, some fs, some vs =>
+      let c := Gama.Gen.YSign.changeCluster (K := K) ⟨fs.map (· ≠ 0), vs, m⟩
+      s!"ok {c.cov.dim} {c.cov.band} " ++ renderAll c.cov.buf.toList ++ " | " ++ renderAll c.values
+    | _, _, _ => "bad-op"
+  | _ => "bad-op"
+
+/-- `ypoint test_xy x y` : `if (p.test_xy()) p.set_xy(p.x(), -p.y());` -/
+def opYPoint (args : List String) : String :=
+  match args with
+  | [h, x, y] =>
+    match h.toNat?, Wire.parse (K := K) x, Wire.parse (K := K) y with
+    | some h, some x, some y =>
+      let p := Gama.Cov.YSign.changePoint (K := K) ⟨h ≠ 0, x, y⟩
+      "ok " ++ renderAll [p.x, p.y]
+    | _, _, _ => "bad-op"
+  | _ => "bad-op"
+
 end generic
 
 def opIdx (args : List String) : String :=
@@ -231,6 +255,9 @@ def step (_ : Unit) (line : String) : Unit × String :=
     | "denseF" :: a => opDense Float a
     | "homrunF" :: a => opHomRun Float a
     | "covparse" :: a => opParse a
+    | "ysignF" :: a => opYSign Float a
+    | "ysignR" :: a => opYSign Rat a
+    | "ypointF" :: a => opYPoint Float a
     | _ => "bad-op"
   ((), out)
 
